@@ -11,7 +11,7 @@ use std::panic::AssertUnwindSafe;
 
 use ldk_verif_harness::common::*;
 use lightning::ln::channelmanager::PaymentId;
-use lightning::ln::verif_hooks::outbound::Facade;
+use lightning::ln::verif_hooks::outbound::{CallTrace, Facade, PathAnswer};
 use lightning::types::payment::{PaymentHash, PaymentPreimage};
 
 
@@ -27,7 +27,9 @@ mod e2e {
 	use lightning::events::Event;
 	use lightning::ln::channelmanager::{PaymentId, RecentPaymentDetails};
 	use lightning::ln::functional_test_utils::get_payment_preimage_hash;
-	use lightning::ln::outbound_payment::{RecipientOnionFields, RetryableSendFailure};
+	use lightning::chain::ChannelMonitorUpdateStatus;
+	use lightning::ln::channel_state::OutboundHTLCSource;
+	use lightning::ln::outbound_payment::{RecipientOnionFields, Retry, RetryableSendFailure};
 	use lightning::ln::verif_hooks as vh;
 	use lightning::routing::router::{Path, PaymentParameters, Route, RouteHop, RouteParameters};
 	use lightning::types::features::{ChannelFeatures, NodeFeatures};
@@ -36,10 +38,18 @@ mod e2e {
 	struct Pay { mid: u64, id: PaymentId, hash: PaymentHash, preimage: PaymentPreimage, secret: PaymentSecret, to: usize, total: u64, fee: u64,
 		parts: Vec<(u64, usize)>, // (part number, first-hop channel index)
 		routes: Vec<(Vec<usize>, Vec<usize>, u64)>,
-		sent_ev: u32, failed_ev: u32, recipient_claimed: bool, recipient_action: u8, decided: bool }
+		sent_ev: u32, failed_ev: u32, recipient_claimed: bool, recipient_action: u8, decided: bool,
+		/// parts whose HTLC was seen leaving the sender's channel unfulfilled / parts named by a PaymentPathFailed
+		failed_htlcs: BTreeSet<u64>, path_failed: BTreeSet<u64>,
+		/// routing fees of all paths the payment may use (first-hop HTLC amounts include them)
+		max_fee: u64 }
 
 	struct Ctx<'a> { net: Net, rec: &'a mut Rec, rng: &'a mut Rng, buf: Vec<(String, u32)>, group: u32, htlcs: BTreeMap<(usize, u64), (usize, u64, bool)>,
-		live: BTreeSet<(usize, u64)>, ev_seen: Vec<usize>, pays: Vec<Pay>, next_part: u64, log: Vec<String>, sender_balance: u64 }
+		live: BTreeSet<(usize, u64)>, ev_seen: Vec<usize>, pays: Vec<Pay>, next_part: u64, log: Vec<String>, sender_balance: u64,
+		/// ` tried=..` suffix of the next compared answer (a `sendr` / `retryr` op is in the next flush)
+		tried: String,
+		/// first-hop channels of the sender with a monitor update left InProgress by the harness; peers to reconnect
+		paused: Vec<usize>, to_reconnect: Vec<(usize, usize)> }
 
 	fn hops(net: &Net, nodes: &[usize], chans: &[usize], amt: u64) -> (Path, u64) {
 		let mut h = vec![]; let mut fee = 0;
@@ -62,6 +72,19 @@ mod e2e {
 			}
 			m
 		}
+		/// HTLCs of payment `p` that are pending in the sender's channels, read from the channels alone (independent of the
+		/// OutboundPayments map): committed ones — also while the monitor update that commits them is still in progress —
+		/// and ones waiting in the holding cell. Returns (count, sum of amounts).
+		fn live_of(&self, p: usize) -> (usize, u64) {
+			let (mut n, mut sum) = (0, 0);
+			for ch in self.net.nodes[0].node.list_channels() {
+				for h in ch.pending_outbound_htlcs.iter() {
+					let ours = match &h.source { Some(OutboundHTLCSource::Local { payment_id }) => *payment_id == self.pays[p].id, Some(_) => false, None => h.payment_hash == self.pays[p].hash };
+					if ours && h.payment_hash == self.pays[p].hash { n += 1; sum += h.amount_msat; }
+				}
+			}
+			(n, sum)
+		}
 		fn balance(&self) -> u64 {
 			let n = self.net.nodes[0].node; let mut t = 0;
 			for ch in n.list_channels() { t += vh::channel_value_to_self_msat(n, &ch.counterparty.node_id, &ch.channel_id).unwrap_or(0); }
@@ -75,6 +98,7 @@ mod e2e {
 			for k in gone {
 				self.live.remove(&k);
 				if let Some((p, part, fulfilled)) = self.htlcs.get(&k).cloned() {
+					if !fulfilled { self.pays[p].failed_htlcs.insert(part); }
 					let mid = self.pays[p].mid;
 					let g = self.group; if fulfilled { self.buf.push((format!("finalize {} {}", mid, part), g)); } else { self.buf.push((format!("fail {} {} 0 ?{}", mid, part, part), g)); }
 				}
@@ -119,9 +143,8 @@ mod e2e {
 							self.pays[p].failed_ev += 1; let mid = self.pays[p].mid; texts.push((mid, format!("failed:{}:{}", mid, reason.map(|r| format!("{:?}", r)).unwrap_or("None".into()))));
 							// truthful terminal event: PaymentFailed only once NO HTLC of the payment is in flight any more
 							// (read from the sender's channels, independent of the OutboundPayments map)
-							let h = self.pays[p].hash;
-							let live = self.sender_htlcs().values().filter(|x| **x == h).count();
-							if live > 0 { self.rec.oracle_fail(format!("PaymentFailed for payment {} while {} of its HTLCs are still pending in the sender's channels :: {}", mid, live, self.log.join(" | "))); }
+							let (live, _) = self.live_of(p);
+							if live > 0 { self.rec.oracle_fail(format!("PaymentFailed for payment {} while {} of its HTLCs are still pending in the sender's channels (committed, possibly behind an in-progress monitor update, or in the holding cell) :: {}", mid, live, self.log.join(" | "))); }
 						}
 					},
 					Event::PaymentPathSuccessful { payment_id, path, .. } => {
@@ -131,6 +154,10 @@ mod e2e {
 						if let Some(p) = self.pays.iter().position(|x| Some(x.id) == *payment_id) {
 							let mid = self.pays[p].mid; let part = self.part_of(p, path.hops[0].short_channel_id);
 							perm.insert(part, *payment_failed_permanently);
+							self.pays[p].path_failed.insert(part);
+							// ... and not a path whose HTLC is still pending in the sender's channel (e.g. paused behind a monitor update)
+							let cur = self.sender_htlcs();
+							if self.htlcs.iter().any(|(k, v)| v.0 == p && v.1 == part && cur.contains_key(k)) { self.rec.oracle_fail(format!("PaymentPathFailed for part {} of payment {} although its HTLC is still pending in the sender's channel :: {}", part, mid, self.log.join(" | "))); }
 							// failure attribution: a failure from the recipient names no channel; one from a hop names a channel of the path
 							if let Some(s) = short_channel_id { if !path.hops.iter().any(|h| h.short_channel_id == *s) { self.rec.oracle_fail(format!("PaymentPathFailed.short_channel_id {} is not on the failed path pay={} :: {}", s, mid, self.log.join(" | "))); } }
 							if *payment_failed_permanently && self.pays[p].recipient_action != 2 && self.pays[p].decided { self.rec.oracle_fail(format!("permanent failure reported although the recipient did not reject pay={} :: {}", mid, self.log.join(" | "))); }
@@ -157,6 +184,7 @@ mod e2e {
 			ops.push("handle".to_string());
 			texts.sort_by_key(|t| t.0);
 			let mut ans = "ok".to_string(); for (_, t) in texts.iter() { ans.push(' '); ans.push_str(t); }
+ans.push_str(&self.tried); self.tried.clear();
 			let line = format!("seq {}", ops.join(" ; "));
 			let class = if texts.is_empty() { "quiet" } else if texts.iter().any(|t| t.1.starts_with("sent")) { "sent" } else if texts.iter().any(|t| t.1.starts_with("failed")) { "failed" } else { "path-events" };
 			self.log.push(format!("{} => {}", line, ans));
@@ -164,6 +192,12 @@ mod e2e {
 			self.oracle_counts();
 		}
 		fn oracle_counts(&mut self) {
+			// never more in flight than the payment's total: an amount must not be sent again while its HTLC is still pending
+			if !self.pays.is_empty() {
+				let p = self.pays.len() - 1;
+				let (n, sum) = self.live_of(p);
+				if sum > self.pays[p].total + self.pays[p].max_fee { self.rec.oracle_fail(format!("payment {}: amount re-sent although still in flight (sum of its {} pending HTLCs {} > total {} + routing fees {}) :: {}", self.pays[p].mid, n, sum, self.pays[p].total, self.pays[p].max_fee, self.log.join(" | "))); }
+			}
 			for pay in self.pays.iter() {
 				if pay.sent_ev > 1 || pay.failed_ev > 1 || (pay.sent_ev > 0 && pay.failed_ev > 0) {
 					self.rec.oracle_fail(format!("payment {} got {} PaymentSent and {} PaymentFailed events (no restart) :: {}", pay.mid, pay.sent_ev, pay.failed_ev, self.log.join(" | ")));
@@ -194,13 +228,120 @@ mod e2e {
 			self.net.pump(0);
 			match r {
 				Ok(()) => {
-					self.pays.push(Pay { mid, id, hash, preimage, secret, to, total, fee, parts: parts.clone(), routes, sent_ev: 0, failed_ev: 0, recipient_claimed: false, recipient_action: 0, decided: false });
+					self.pays.push(Pay { mid, id, hash, preimage, secret, to, total, fee, parts: parts.clone(), routes, sent_ev: 0, failed_ev: 0, recipient_claimed: false, recipient_action: 0, decided: false, failed_htlcs: BTreeSet::new(), path_failed: BTreeSet::new(), max_fee: fee });
 					self.observe();
 					let csv: Vec<String> = parts.iter().map(|p| p.0.to_string()).collect();
 					self.flush(Some(&format!("send {} {}", mid, csv.join(","))));
 					Some(self.pays.len() - 1)
 				},
 				Err(e) => { self.rec.discarded += 1; self.log.push(format!("send refused {:?}", e)); None },
+			}
+		}
+		/// complete one paused monitor update of the sender, or reconnect one disconnected peer (PRNG order)
+		fn resume_one(&mut self) {
+			let pick_pause = !self.paused.is_empty() && (self.to_reconnect.is_empty() || self.rng.chance(1, 2));
+			if pick_pause {
+				let c = self.paused.remove(0);
+				for id in self.net.pending_updates(0, c) { self.net.complete(0, c, id); }
+				self.observe();
+				self.log.push(format!("monitor update of c{} completed", c));
+			} else if !self.to_reconnect.is_empty() {
+				let pr = self.to_reconnect.remove(0);
+				self.net.reconnect(pr.0, pr.1); self.observe();
+				self.log.push(format!("reconnect {:?}", pr));
+			}
+		}
+		/// A send whose paths meet different fates in the SAME send call: first-hop channels whose ChannelMonitorUpdate
+		/// persists asynchronously (`send_payment_along_path` answers MonitorUpdateInProgress: the HTLC is committed and
+		/// goes out once the update completes), first hops whose peer is disconnected (ChannelUnavailable: never sent),
+		/// and ordinary ones. What each path met is read back from the sender's channels (HTLC present? update pending?).
+		/// variants: 0 paused + refused; 1 ok + paused + refused; 2 ok + paused; 3 paused alone; 4 all refused;
+		/// 5 paused + refused with one retry left (the retry goes over the second 0-1 channel); 6 paused direct + refused 2-hop
+		fn send_async(&mut self, mid: u64, v: u64) -> Option<usize> {
+			let amt = 50_000 + self.rng.below(100) * 1000;
+			let via0: (Vec<usize>, Vec<usize>) = (vec![0, 1, 2], vec![0, 2]);
+			let via1: (Vec<usize>, Vec<usize>) = (vec![0, 1, 2], vec![1, 2]);
+			let direct: (Vec<usize>, Vec<usize>) = (vec![0, 2], vec![3]);
+			use ChannelMonitorUpdateStatus::{Completed, InProgress};
+			let (routes, rets, disc, retry): (Vec<(Vec<usize>, Vec<usize>, u64)>, Vec<ChannelMonitorUpdateStatus>, Vec<(usize, usize)>, bool) = match v {
+				0 => (vec![(via0.0, via0.1, amt), (direct.0, direct.1, amt + 2000)], vec![InProgress], vec![(0, 2)], false),
+				1 => (vec![(via0.0, via0.1, amt), (via1.0, via1.1, amt + 1000), (direct.0, direct.1, amt + 2000)], vec![Completed, InProgress], vec![(0, 2)], false),
+				2 => (vec![(via0.0, via0.1, amt), (via1.0, via1.1, amt + 1000)], vec![Completed, InProgress], vec![], false),
+				3 => (vec![if self.rng.chance(1, 2) { (via0.0, via0.1, amt) } else { (direct.0, direct.1, amt) }], vec![InProgress], vec![], false),
+				4 => (vec![(via0.0, via0.1, amt), (direct.0, direct.1, amt + 2000)], vec![], vec![(0, 1), (0, 2)], false),
+				5 => (vec![(via0.0, via0.1, amt), (direct.0, direct.1, amt + 2000)], vec![InProgress], vec![(0, 2)], true),
+				_ => (vec![(direct.0, direct.1, amt), (via0.0, via0.1, amt + 2000)], vec![InProgress], vec![(0, 1)], false),
+			};
+			let to = 2;
+			let total: u64 = routes.iter().map(|r| r.2).sum();
+			let (preimage, hash, secret) = get_payment_preimage_hash(&self.net.nodes[to], Some(total), None);
+			let mut paths = vec![]; let mut fees = vec![]; let mut parts = vec![];
+			for (nodes, chans, a) in routes.iter() { let (p, f) = hops(&self.net, nodes, chans, *a); paths.push(p); fees.push(f); parts.push((self.next_part, chans[0])); self.next_part += 1; }
+			let params = PaymentParameters::from_node_id(self.net.ids[to], 60);
+			let route_params = RouteParameters::from_payment_params_and_value(params, total);
+			let route = Route { paths, route_params: route_params.clone() };
+			let id = PaymentId(hash.0);
+			for pr in disc.iter() { self.net.disconnect(pr.0, pr.1); self.to_reconnect.push(*pr); self.log.push(format!("disconnect {:?}", pr)); }
+			self.observe();
+			{ let mut q = self.net.persisters[0].update_rets.lock().unwrap(); q.clear(); for r in rets.iter() { q.push_back(*r); } }
+			// the retry (variant 5): what the router is asked after the partial failure, and the route it answers with
+			let mut retry_part: Option<(u64, usize)> = None;
+			let mut retry_route_txt = None;
+			if retry {
+				let router = self.net.nodes[0].router;
+				router.expect_find_route(route_params.clone(), Ok(route.clone()));
+				let mut rp = route_params.clone();
+				rp.final_value_msat = routes[1].2;
+				rp.max_total_routing_fee_msat = rp.max_total_routing_fee_msat.map(|m| m.saturating_sub(fees[0]));
+				rp.payment_params.previously_failed_channels.push(self.net.chans[3].3);
+				let via1b: (Vec<usize>, Vec<usize>) = (vec![0, 1, 2], vec![1, 2]);
+				let (p2, f2) = hops(&self.net, &via1b.0, &via1b.1, routes[1].2);
+				router.expect_find_route(rp.clone(), Ok(Route { paths: vec![p2], route_params: rp }));
+				retry_part = Some((self.next_part, 1)); self.next_part += 1;
+				retry_route_txt = Some((via1b.0.clone(), via1b.1.clone(), routes[1].2, f2));
+			}
+			let node = self.net.nodes[0].node;
+			let onion = RecipientOnionFields::secret_only(secret, total);
+			let r = guarded(std::panic::AssertUnwindSafe(|| if retry { node.send_payment(hash, onion, id, route_params, Retry::Attempts(1)) } else { node.send_payment_with_route(route, hash, onion, id) }));
+			self.net.persisters[0].update_rets.lock().unwrap().clear();
+			let r = match r { Ok(r) => r, Err(e) => { self.rec.oracle_fail(format!("send panicked (async variant {}): {} :: {}", v, e.chars().take(300).collect::<String>(), self.log.join(" | "))); return None; } };
+			self.net.pump(0);
+			match r {
+				Ok(()) => {
+					let mut all_parts = parts.clone();
+					if let Some(rp) = retry_part { all_parts.push(rp); }
+					let all_routes = routes.clone();
+					self.pays.push(Pay { mid, id, hash, preimage, secret, to, total, fee: 0, parts: all_parts.clone(), routes: all_routes, sent_ev: 0, failed_ev: 0, recipient_claimed: false, recipient_action: 0, decided: false, failed_htlcs: BTreeSet::new(), path_failed: BTreeSet::new(), max_fee: fees.iter().sum::<u64>() + 1000 });
+					let p = self.pays.len() - 1;
+					self.observe();
+					// what each path met, read from the channels
+					let res_of = |ctx: &Self, c: usize| -> char {
+						let cid = ctx.net.chans[c].2;
+						let has = ctx.net.nodes[0].node.list_channels().iter().any(|ch| ch.channel_id == cid && ch.pending_outbound_htlcs.iter().any(|h| h.payment_hash == hash));
+						if !has { 'e' } else if !ctx.net.pending_updates(0, c).is_empty() { 'm' } else { 'o' }
+					};
+					let res: Vec<char> = parts.iter().map(|(_, c)| res_of(self, *c)).collect();
+					let mut fee = 0;
+					for (k, r) in res.iter().enumerate() { if *r != 'e' { fee += fees[k]; } if *r == 'm' { self.paused.push(parts[k].1); } }
+					let csv = |v: &Vec<(u64, usize)>| v.iter().map(|p| p.0.to_string()).collect::<Vec<_>>().join(",");
+					let mut line = format!("sendr {} {} {} 0", mid, csv(&parts), res.iter().map(|c| c.to_string()).collect::<Vec<_>>().join(","));
+					let mut tried: Vec<String> = parts.iter().map(|p| p.0.to_string()).collect();
+					if res.iter().any(|c| *c == 'e') {
+						// handle_pay_route_err goes back to the router: one retry left and a route (variant 5), or no route
+						match retry_part {
+							Some((pt, c)) => { let r2 = res_of(self, c); if r2 != 'e' { fee += retry_route_txt.as_ref().unwrap().3; } line.push_str(&format!(" ; retryr {} {} 1 {} 0", mid, pt, r2)); tried.push(pt.to_string()); },
+							None => line.push_str(&format!(" ; abandon {} RouteNotFound", mid)),
+						}
+					}
+					self.pays[p].fee = fee;
+					self.log.push(format!("async send variant {} results {:?}", v, res));
+					self.tried = format!(" tried={}", tried.join(","));
+					self.flush(Some(&line));
+					let class = format!("async:{}:{}", v, res.iter().collect::<String>());
+					*self.rec.classes.entry(class).or_insert(0) += 1;
+					Some(p)
+				},
+				Err(e) => { self.rec.discarded += 1; self.log.push(format!("async send refused {:?}", e)); while !self.to_reconnect.is_empty() { self.resume_one(); } None },
 			}
 		}
 		fn dup_send(&mut self, p: usize) {
@@ -271,11 +412,16 @@ mod e2e {
 			let to = *routes[0].0.last().unwrap();
 			self.log.clear();
 			let bal0 = self.balance();
-			let p = match self.send(mid, to, routes) { Some(p) => p, None => return };
+			let asyncv = if self.rng.chance(3, 10) { Some(self.rng.below(7)) } else { None };
+			let p = match asyncv {
+				Some(v) => match self.send_async(mid, v) { Some(p) => p, None => return },
+				None => match self.send(mid, to, routes) { Some(p) => p, None => return },
+			};
 			let mut disconnected: Option<(usize, usize)> = None;
 			let mut abandoned = false;
 			for _round in 0..600 {
-				if self.quiescent() && disconnected.is_none() { break; }
+				if self.quiescent() && disconnected.is_none() && self.paused.is_empty() && self.to_reconnect.is_empty() { break; }
+				if (!self.paused.is_empty() || !self.to_reconnect.is_empty()) && self.rng.chance(1, 6) { self.resume_one(); continue; }
 				let r = self.rng.below(100);
 				if r < 62 {
 					let pairs: Vec<(usize, usize)> = self.net.q.iter().filter(|(_, q)| !q.is_empty()).map(|(k, _)| *k).collect();
@@ -293,13 +439,15 @@ mod e2e {
 					self.net.nodes[0].node.abandon_payment(self.pays[p].id); self.net.pump(0); self.observe();
 					self.buf.push((format!("abandon {} UserAbandoned", mid), 0));
 				} else if r < 97 && !calm {
+					if !self.to_reconnect.is_empty() { continue; }
 					match disconnected {
 						None => { let pr = if self.rng.chance(1, 2) { (0, 1) } else if self.rng.chance(1, 2) { (1, 2) } else { (0, 2) }; self.net.disconnect(pr.0, pr.1); disconnected = Some(pr); self.observe(); self.log.push(format!("disconnect {:?}", pr)); },
 						Some(pr) => { self.net.reconnect(pr.0, pr.1); disconnected = None; self.observe(); self.log.push(format!("reconnect {:?}", pr)); },
 					}
 				} else if r < 99 { self.recent_checked(); }
 			}
-			// drain: reconnect, let MPP parts time out at the recipient, deliver everything
+			// drain: complete paused monitor updates, reconnect, let MPP parts time out at the recipient, deliver everything
+			while !self.paused.is_empty() || !self.to_reconnect.is_empty() { self.resume_one(); }
 			if let Some(pr) = disconnected { self.net.reconnect(pr.0, pr.1); self.observe(); }
 			for phase in 0..6 {
 				for _ in 0..400 {
@@ -321,11 +469,13 @@ mod e2e {
 			let tr = self.log.join(" | ");
 			if pay.sent_ev + pay.failed_ev != 1 { self.rec.oracle_fail(format!("payment {} ended with {} PaymentSent + {} PaymentFailed events :: {}", pay.mid, pay.sent_ev, pay.failed_ev, tr)); }
 			if (pay.sent_ev == 1) != pay.recipient_claimed { self.rec.oracle_fail(format!("payment {}: PaymentSent={} but recipient PaymentClaimed={} :: {}", pay.mid, pay.sent_ev, pay.recipient_claimed, tr)); }
+			// every HTLC of the payment that was resolved (failed) at the sender produced its PaymentPathFailed, unless the payment had succeeded
+			if pay.sent_ev == 0 { for part in pay.failed_htlcs.iter() { if !pay.path_failed.contains(part) { self.rec.oracle_fail(format!("payment {}: HTLC of part {} was resolved (failed) at the sender for an unknown payment / untracked part: no event produced :: {}", pay.mid, part, tr)); } } }
 			let bal1 = self.balance();
 			let expect = if pay.sent_ev == 1 { pay.total + pay.fee } else { 0 };
 			if self.sender_htlcs().is_empty() && bal0 as i128 - bal1 as i128 != expect as i128 { self.rec.oracle_fail(format!("payment {}: sender balance fell by {} msat, expected {} :: {}", pay.mid, bal0 as i128 - bal1 as i128, expect, tr)); }
 			self.sender_balance = bal1;
-			let class = format!("pay:{}parts:{}{}", self.pays[p].parts.len(), if self.pays[p].sent_ev == 1 { "sent" } else { "failed" }, if abandoned { ":abandoned" } else { "" });
+			let class = format!("pay:{}parts:{}{}{}", self.pays[p].parts.len(), if self.pays[p].sent_ev == 1 { "sent" } else { "failed" }, if abandoned { ":abandoned" } else { "" }, match asyncv { Some(v) => format!(":async{}", v), None => String::new() });
 			*self.rec.classes.entry(class).or_insert(0) += 1;
 		}
 		fn recent_checked(&mut self) { self.flush(None); self.recent(); }
@@ -339,7 +489,7 @@ mod e2e {
 		sim::silence_stdout();
 		let mut rec = Rec::new(&args.out, "c03e2e");
 		let mut rng = Rng::new(args.seed ^ 0xe2e0_3);
-		let n_nets = if args.thorough { 150 } else { 10 } * args.scale;
+		let n_nets = if args.thorough { 150 } else { 20 } * args.scale;
 		let per_net = if args.thorough { 80 } else { 40 };
 		for _ in 0..n_nets {
 			rec.directive("reset");
@@ -348,7 +498,7 @@ mod e2e {
 			net.open(0, 1, 2_000_000, 500_000_000);
 			net.open(1, 2, 2_000_000, 500_000_000);
 			net.open(0, 2, 2_000_000, 500_000_000);
-			let mut ctx = Ctx { net, rec: &mut rec, rng: &mut rng, buf: vec![], group: 0, htlcs: BTreeMap::new(), live: BTreeSet::new(), ev_seen: vec![0; 3], pays: vec![], next_part: 1, log: vec![], sender_balance: 0 };
+			let mut ctx = Ctx { net, rec: &mut rec, rng: &mut rng, buf: vec![], group: 0, htlcs: BTreeMap::new(), live: BTreeSet::new(), ev_seen: vec![0; 3], pays: vec![], next_part: 1, log: vec![], sender_balance: 0, tried: String::new(), paused: vec![], to_reconnect: vec![] };
 			for k in 0..per_net {
 				let calm = ctx.rng.chance(1, 4);
 				ctx.run_payment(k as u64 + 1, calm);
@@ -388,7 +538,7 @@ pub fn canon(status: &str, evs: &[String]) -> String {
 }
 
 #[derive(Clone, Default)]
-struct PayMeta { strategy: Option<u32>, count: u32, gen: u64 }
+struct PayMeta { strategy: Option<u32>, count: u32, gen: u64, no_secret: bool }
 
 #[derive(Clone, Copy)]
 struct Part { id: u64, sp: [u8; 32], }
@@ -410,6 +560,11 @@ struct Seq<'a> {
 	present: BTreeSet<u64>,
 	trace: Vec<String>,
 	dead: bool,
+	/// GROUND TRUTH kept by the harness (independent of the payments map and of the Lean model): (payment, part) of
+	/// every HTLC that `send_payment_along_path` accepted (answer Ok or MonitorUpdateInProgress; for `add` and the
+	/// all-Ok `check`: every part) and that has not been resolved yet by a fail / finalize / on-chain claim call
+	inflight: BTreeSet<(u64, u64)>,
+	amt: u64,
 }
 
 impl<'a> Seq<'a> {
@@ -437,6 +592,7 @@ impl<'a> Seq<'a> {
 	fn emit(&mut self, op: String, status: &str, evs: &[String], class: &str) {
 		let ans = canon(status, evs);
 		self.trace.push(format!("{} => {}", op, ans));
+		self.path_failed_oracle(evs);
 		for e in evs {
 			let w: Vec<&str> = e.split(' ').collect();
 			if w[0] == "PaymentSent" {
@@ -446,7 +602,12 @@ impl<'a> Seq<'a> {
 				if w[2] != "preimage_ok=true" { let tr = self.trace.join(" | "); self.rec.oracle_fail(format!("PaymentSent preimage does not hash to the payment hash: {}", tr)); }
 			} else if w[0] == "PaymentFailed" {
 				let i = pid_num(w[1]);
-				self.tally.entry(i).or_default().failed += 1;
+				let t = self.tally.entry(i).or_default();
+				t.failed += 1;
+				let restarted = t.restarted;
+				// truthful terminal event: PaymentFailed only once NO HTLC of the payment is in flight
+				let live: Vec<u64> = self.inflight.iter().filter(|k| k.0 == i).map(|k| k.1).collect();
+				if !restarted && !live.is_empty() { let tr = self.trace.join(" | "); self.rec.oracle_fail(format!("PaymentFailed for payment {} while {} of its HTLCs are still in flight (parts {:?}; accepted by send_payment_along_path with Ok / MonitorUpdateInProgress, not yet resolved): {}", i, live.len(), live, tr)); }
 			}
 		}
 		self.rec.case(&op, &ans, class, true);
@@ -470,7 +631,31 @@ impl<'a> Seq<'a> {
 					self.rec.oracle_fail(format!("payment id={} dropped from the map with {} terminal events: {}", i, t.sent + t.failed, tr()));
 				}
 			}
+			if !t.restarted {
+				let live = self.inflight.iter().filter(|k| k.0 == i).count();
+				if self.present.contains(&i) && !now.contains(&i) && live > 0 {
+					self.rec.oracle_fail(format!("payment id={} dropped from the map (the id can be re-used) while {} of its HTLCs are still in flight: {}", i, live, tr()));
+				}
+				if let Some((name, n)) = st.get(&i) {
+					if name != "AwaitingInvoice" && *n != live {
+						self.rec.oracle_fail(format!("payment id={} ({}) tracks {} in-flight parts but {} of its HTLCs are in flight: {}", i, name, n, live, tr()));
+					}
+				}
+			}
 			if !now.contains(&i) { self.tally.remove(&i); }
+		}
+		for (pidx, pending, total) in self.f.amounts() {
+			let i = pid_num(&hex(&pidx.0));
+			if self.tally.get(&i).map(|t| t.restarted).unwrap_or(true) { continue; }
+			let live = self.inflight.iter().filter(|k| k.0 == i).count() as u64;
+			if pending != live * self.amt {
+				let tr = self.trace.join(" | ");
+				self.rec.oracle_fail(format!("payment id={}: pending_amt_msat {} != {} = sum over its {} in-flight HTLCs: {}", i, pending, live * self.amt, live, tr));
+			}
+			if live * self.amt > total {
+				let tr = self.trace.join(" | ");
+				self.rec.oracle_fail(format!("payment id={}: amount re-sent although still in flight (sum of in-flight parts {} > total {}): {}", i, live * self.amt, total, tr));
+			}
 		}
 		self.present = now;
 	}
@@ -499,6 +684,9 @@ impl<'a> Seq<'a> {
 	}
 
 	fn step(&mut self) {
+		let r0 = self.rng.below(100);
+		if r0 < 11 { self.random_send_with(); if !self.dead && self.rng.chance(1, 3) { self.dump(); } return; }
+		if r0 < 16 { self.random_check_with(); if !self.dead && self.rng.chance(1, 3) { self.dump(); } return; }
 		let (_, st) = self.list_line();
 		let r = self.rng.below(100);
 		if r < 14 {
@@ -515,8 +703,10 @@ impl<'a> Seq<'a> {
 			match res {
 				Ok(Ok(sps)) => {
 					for (p, sp) in parts.iter().zip(sps.iter()) { self.parts.insert(*p, Part { id, sp: *sp }); }
-					self.meta.insert(id, PayMeta { strategy, count: 0, gen });
+					self.meta.insert(id, PayMeta { strategy, count: 0, gen, no_secret: false });
 					self.tally.insert(id, Tally::default());
+					self.inflight.retain(|k| k.0 != id);
+					for p in parts.iter() { self.inflight.insert((id, *p)); }
 					self.emit(format!("send {} {}", id, Self::csv(&parts)), "ok", &[], "send:ok");
 				},
 				Ok(Err(e)) => {
@@ -536,6 +726,10 @@ impl<'a> Seq<'a> {
 			let f = &self.f;
 			let res = guarded(AssertUnwindSafe(|| f.claim(pid(id), preimage_of(id, gen), sp, part, oc)));
 			if hit { self.tally.entry(id).or_default().claim_hit = true; }
+			let was = self.inflight.contains(&(id, part)) && !self.tally.get(&id).map(|t| t.restarted).unwrap_or(true);
+			let before = st.get(&id).map(|x| x.0.clone()).unwrap_or("Absent".into());
+			if res.is_ok() && oc { self.inflight.remove(&(id, part)); }
+			if let Ok(evs) = &res { if was && before != "Fulfilled" && !evs.iter().any(|e| e.starts_with("PaymentSent")) { let tr = self.trace.join(" | "); self.rec.oracle_fail(format!("in-flight HTLC (part {}) of payment {} fulfilled at the sender, payment state {}: no PaymentSent produced: {} | claim {} {} {}", part, id, before, tr, id, part, oc as u8)); } }
 			match res {
 				Ok(evs) => self.emit(format!("claim {} {} {}", id, part, oc as u8), "ok", &evs, if evs.is_empty() { "claim:dup" } else if oc { "claim:onchain" } else { "claim:offchain" }),
 				Err(_) => { self.emit(format!("claim {} {} {}", id, part, oc as u8), "panic", &[], "claim:panic"); self.dead = true; },
@@ -547,6 +741,7 @@ impl<'a> Seq<'a> {
 			if !fulfilled && !self.rng.chance(1, 30) { return; }
 			let f = &self.f;
 			let res = guarded(AssertUnwindSafe(|| f.finalize(pid(id), sp, part)));
+			if res.is_ok() { self.inflight.remove(&(id, part)); }
 			match res {
 				Ok(evs) => self.emit(format!("finalize {} {}", id, part), "ok", &evs, if evs.is_empty() { "finalize:dup" } else { "finalize:ok" }),
 				Err(_) => { self.emit(format!("finalize {} {}", id, part), "panic", &[], "finalize:panic"); self.dead = true; },
@@ -559,6 +754,10 @@ impl<'a> Seq<'a> {
 			let hash = hash_of(&preimage_of(id, gen));
 			let f = &self.f;
 			let res = guarded(AssertUnwindSafe(|| f.fail(pid(id), hash, sp, part, perm)));
+			let was = self.inflight.contains(&(id, part)) && !self.tally.get(&id).map(|t| t.restarted).unwrap_or(true);
+			let before = st.get(&id).map(|x| x.0.clone()).unwrap_or("Absent".into());
+			if res.is_ok() { self.inflight.remove(&(id, part)); }
+			if let Ok(evs) = &res { if was && before != "Fulfilled" && evs.is_empty() { let tr = self.trace.join(" | "); self.rec.oracle_fail(format!("in-flight HTLC (part {}) of payment {} failed at the sender, payment state {}: no event produced (payment unknown or part not tracked): {} | fail {} {}", part, id, before, tr, id, part)); } }
 			match res {
 				Ok(evs) => {
 					let class = if evs.is_empty() { "fail:silent" } else if evs.len() == 2 { "fail:terminal" } else if auto && !perm { "fail:retryable" } else { "fail:abandon" };
@@ -587,7 +786,7 @@ impl<'a> Seq<'a> {
 			let id = self.rng.range(1, 4);
 			let t = self.rng.below(4);
 			match self.f.await_invoice(pid(id), t) {
-				Ok(()) => { self.meta.insert(id, PayMeta { strategy: None, count: 0, gen: 0 }); self.tally.insert(id, Tally::default()); self.emit(format!("await {} {}", id, t), "ok", &[], "await:ok") },
+				Ok(()) => { self.meta.insert(id, PayMeta { strategy: None, count: 0, gen: 0, no_secret: false }); self.tally.insert(id, Tally::default()); self.inflight.retain(|k| k.0 != id); self.emit(format!("await {} {}", id, t), "ok", &[], "await:ok") },
 				Err(()) => self.emit(format!("await {} {}", id, t), "dup", &[], "await:dup"),
 			}
 		} else if r < 95 {
@@ -611,7 +810,7 @@ impl<'a> Seq<'a> {
 							if let Some(m) = self.meta.get_mut(&i) { m.count += 1; }
 						} else { items.push(format!("{}=x", i)); }
 					}
-					for (id, sp, scid) in sent { self.parts.insert(scid, Part { id: pid_num(&hex(&id.0)), sp }); }
+					for (id, sp, scid) in sent { let i = pid_num(&hex(&id.0)); self.parts.insert(scid, Part { id: i, sp }); self.inflight.insert((i, scid)); }
 					let (_, st2) = self.list_line();
 					// ids that are auto-retryable at the time of the final retain: Retryable entries that survived
 					// are judged by their (updated) attempt counts; entries removed by the retain were not auto
@@ -643,7 +842,7 @@ impl<'a> Seq<'a> {
 				let gen = self.meta.get(id).map(|m| m.gen).unwrap_or(0);
 				let existed = { let (_, s) = self.list_line(); s.get(id).map(|(n, _)| n != "AwaitingInvoice").unwrap_or(false) };
 				self.f.insert_from_monitor(pid(*id), hash_of(&preimage_of(*id, gen)), self.parts[part].sp, *part);
-				if !existed { self.meta.insert(*id, PayMeta { strategy: None, count: 0, gen }); self.tally.entry(*id).or_default().restarted = true; }
+				if !existed { self.meta.insert(*id, PayMeta { strategy: None, count: 0, gen, no_secret: false }); self.tally.entry(*id).or_default().restarted = true; }
 			}
 			let mut items = vec![];
 			for (id, part, res, _) in view.iter() { if *res == 0 { items.push(format!("{}:{}:p", id, part)); } }
@@ -652,6 +851,7 @@ impl<'a> Seq<'a> {
 				let gen = self.meta.get(id).map(|m| m.gen).unwrap_or(0);
 				let f = &self.f; let sp = self.parts[part].sp;
 				match guarded(AssertUnwindSafe(|| f.claim(pid(*id), preimage_of(*id, gen), sp, *part, true))) { Ok(e) => evs_all.extend(e), Err(_) => panicked = true }
+self.inflight.remove(&(*id, *part));
 				self.tally.entry(*id).or_default().claim_hit = true;
 				items.push(format!("{}:{}:c", id, part));
 			}
@@ -662,29 +862,277 @@ impl<'a> Seq<'a> {
 				let gen = self.meta.get(id).map(|m| m.gen).unwrap_or(0);
 				let f = &self.f; let sp = self.parts[part].sp;
 				match guarded(AssertUnwindSafe(|| f.fail(pid(*id), hash_of(&preimage_of(*id, gen)), sp, *part, *perm))) { Ok(e) => evs_all.extend(e), Err(_) => panicked = true }
+self.inflight.remove(&(*id, *part));
 				items.push(format!("{}:{}:f{}{}", id, part, auto as u8, *perm as u8));
 			}
 			// the driver expands `restart` in the order inserts, claims, fails — keep the same item order per kind
 			let line = format!("restart {}", if items.is_empty() { "-".to_string() } else { items.join(",") });
 			if panicked { self.emit(line, "panic", &[], "restart:panic"); self.dead = true; } else { self.emit(line, "ok", &evs_all, "restart"); }
 		}
-		if !self.dead && self.rng.chance(1, 3) {
-			let (l, _) = self.list_line();
-			self.trace.push(l.clone());
-			self.rec.case("list", &l, "list", true);
+		if !self.dead && self.rng.chance(1, 3) { self.dump(); }
+	}
+	fn dump(&mut self) {
+		let (l, _) = self.list_line();
+		self.trace.push(l.clone());
+		self.rec.case("list", &l, "list", true);
+		let mut a = "amounts".to_string();
+		for (i, pending, total) in self.f.amounts() { a.push_str(&format!(" {}:{}:{}", pid_num(&hex(&i.0)), pending, total)); }
+		self.trace.push(a.clone());
+		self.rec.case("amounts", &a, "amounts", true);
+	}
+
+	fn ans_char(a: PathAnswer) -> char { match a { PathAnswer::Ok => 'o', PathAnswer::MonitorUpdateInProgress => 'm', PathAnswer::ChannelUnavailable => 'e' } }
+
+	/// Turn what one real send / check_retry call did (router calls, routes, per-path answers) into model ops, and keep
+	/// the ground truth. `first` = (payment number, sent without secret) when the first router call is the initial send.
+	fn ops_of_trace(&mut self, first: Option<(u64, bool)>, tr: &CallTrace) -> Vec<String> {
+		let answer: BTreeMap<u64, PathAnswer> = tr.path_calls.iter().map(|c| (c.2, c.3)).collect();
+		let mut ops = vec![];
+		for (k, (idb, route)) in tr.router_calls.iter().enumerate() {
+			let i = pid_num(&hex(&idb.0));
+			match route {
+				None => ops.push(format!("abandon {} RouteNotFound", i)),
+				Some(paths) => {
+					let parts: Vec<u64> = paths.iter().map(|p| p.0).collect();
+					let res: Vec<String> = paths.iter().map(|(scid, bad)| if *bad { "b".to_string() } else { answer.get(scid).map(|a| Self::ans_char(*a)).unwrap_or('o').to_string() }).collect();
+					if k == 0 && first.is_some() {
+						ops.push(format!("sendr {} {} {} {}", i, Self::csv(&parts), res.join(","), first.unwrap().1 as u8));
+					} else {
+						let (now, ns) = match self.meta.get(&i) { Some(m) => (m.strategy.map(|s| s > m.count).unwrap_or(true), m.no_secret), None => (true, false) };
+						ops.push(format!("retryr {} {} {} {} {}", i, Self::csv(&parts), now as u8, res.join(","), ns as u8));
+						if now { if let Some(m) = self.meta.get_mut(&i) { m.count += 1; } }
+					}
+				},
+			}
 		}
+		for (idb, sp, scid, a) in tr.path_calls.iter() {
+			let i = pid_num(&hex(&idb.0));
+			self.parts.insert(*scid, Part { id: i, sp: *sp });
+			if *a != PathAnswer::ChannelUnavailable { self.inflight.insert((i, *scid)); }
+		}
+		ops
+	}
+	fn tried_suffix(tr: &CallTrace) -> String {
+		if tr.path_calls.is_empty() { String::new() } else { format!(" tried={}", tr.path_calls.iter().map(|c| c.2.to_string()).collect::<Vec<_>>().join(",")) }
+	}
+
+	/// one `send_payment` call: route of `n` parts (`first_route[k]`: path k fails the parameter check; None = no route),
+	/// follow-up router answers `retries_plan` (None = no route, Some(n_bad) = a route whose first n_bad paths are bad),
+	/// per-path answers of send_payment_along_path in call order
+	fn send_with_op(&mut self, id: u64, n: u64, retries: u32, with_secret: bool, first_route: Option<Vec<bool>>, retries_plan: Vec<Option<u64>>, answers: Vec<PathAnswer>) {
+		let (_, st) = self.list_line();
+		let mut plan: Vec<Option<Vec<(u64, bool)>>> = vec![];
+		plan.push(first_route.map(|bad| { let ps = self.new_parts(id, bad.len() as u64); ps.into_iter().zip(bad.into_iter()).collect() }));
+		for r in retries_plan.iter() { plan.push(r.map(|nb| { let ps = self.new_parts(id, 4); ps.into_iter().enumerate().map(|(k, p)| (p, (k as u64) < nb)).collect() })); }
+		self.gens += 1;
+		let gen = self.gens;
+		let hash = hash_of(&preimage_of(id, gen));
+		let present = st.contains_key(&id);
+		let old_meta = self.meta.get(&id).cloned();
+		let old_inflight = self.inflight.clone();
+		if !present { self.meta.insert(id, PayMeta { strategy: Some(retries), count: 0, gen, no_secret: !with_secret }); self.inflight.retain(|k| k.0 != id); }
+		let f = &self.f;
+		let res = guarded(AssertUnwindSafe(|| f.send_with(pid(id), hash, n, retries, with_secret, plan, answers)));
+		match res {
+			Ok(tr) => {
+				match tr.result.as_str() {
+					"Ok" => {
+						if present { let t = self.trace.join(" | "); self.rec.oracle_fail(format!("second send with a pending PaymentId {} was accepted: {}", id, t)); }
+						self.tally.insert(id, Tally::default());
+						let ops = self.ops_of_trace(Some((id, !with_secret)), &tr);
+						let class = format!("sendw:{}calls:{}", tr.router_calls.len().min(3), if tr.path_calls.iter().any(|c| c.3 == PathAnswer::MonitorUpdateInProgress) { "mip" } else if tr.path_calls.iter().any(|c| c.3 == PathAnswer::ChannelUnavailable) { "err" } else if tr.path_calls.is_empty() { "param" } else { "ok" });
+						let line = format!("chain {}", ops.join(" ; "));
+						let ans = format!("{}{} chain=ok", canon("ok", &tr.events), Self::tried_suffix(&tr));
+						self.emit_raw(line, ans, &tr.events, &class);
+					},
+					"DuplicatePayment" => {
+						if !present { let t = self.trace.join(" | "); self.rec.oracle_fail(format!("send of id={} refused with DuplicatePayment although the id is not listed: {}", id, t)); }
+						if let Some(m) = old_meta { self.meta.insert(id, m); }
+						if let Some(Some(paths)) = tr.router_calls.get(0).map(|c| c.1.clone()) {
+							let parts: Vec<u64> = paths.iter().map(|p| p.0).collect();
+							let res: Vec<&str> = paths.iter().map(|p| if p.1 { "b" } else { "o" }).collect();
+							self.emit_raw(format!("chain sendr {} {} {} {}", id, Self::csv(&parts), res.join(","), !with_secret as u8), "dup chain=ok".to_string(), &[], "sendw:dup");
+						}
+						let (_, after) = self.list_line();
+						if st != after { let t = self.trace.join(" | "); self.rec.oracle_fail(format!("refused duplicate send changed the map: {}", t)); }
+					},
+					other => {
+						if !present { self.meta.remove(&id); self.inflight = old_inflight; }
+						if other != "RouteNotFound" { let t = self.trace.join(" | "); self.rec.oracle_fail(format!("send_payment returned {}: {}", other, t)); }
+						self.rec.discarded += 1;
+					},
+				}
+			},
+			Err(_) => { self.emit(format!("chain sendr {} - - {}", id, !with_secret as u8), "panic", &[], "sendw:panic"); self.dead = true; },
+		}
+	}
+
+	/// one `check_retry_payments` call with scripted per-path answers
+	fn check_with_op(&mut self, plan_spec: Vec<Option<u64>>, answers: Vec<PathAnswer>) {
+		let plan: Vec<Option<Vec<(u64, bool)>>> = plan_spec.iter().map(|r| r.map(|nb| { let ps = self.new_parts(0, 4); ps.into_iter().enumerate().map(|(k, p)| (p, (k as u64) < nb)).collect() })).collect();
+		let f = &self.f;
+		let res = guarded(AssertUnwindSafe(|| f.check_retry_with(plan, answers)));
+		match res {
+			Ok(tr) => {
+				let mut ops = self.ops_of_trace(None, &tr);
+				let (_, st2) = self.list_line();
+				let autos: Vec<u64> = self.meta.iter().filter(|(i, m)| m.strategy.map(|s| s > m.count).unwrap_or(false) && st2.get(*i).map(|(n, _)| n == "Retryable").unwrap_or(false)).map(|(i, _)| *i).collect();
+				ops.push(format!("sweep {}", Self::csv(&autos)));
+				let class = if tr.router_calls.is_empty() { if tr.events.is_empty() { "checkw:idle" } else { "checkw:sweep" } } else if tr.path_calls.iter().any(|c| c.3 == PathAnswer::MonitorUpdateInProgress) { "checkw:mip" } else { "checkw:retry" };
+				let ans = format!("{}{}", canon("ok", &tr.events), Self::tried_suffix(&tr));
+				self.emit_raw(format!("seq {}", ops.join(" ; ")), ans, &tr.events, class);
+				// the loop of check_retry_payments only ends when no auto-retryable payment is short of its total
+				self.rec.case(&format!("unsettled {}", Self::csv(&autos)), "unsettled", "checkw:settled", true);
+			},
+			Err(_) => { self.emit("seq sweep -".to_string(), "panic", &[], "checkw:panic"); self.dead = true; },
+		}
+	}
+
+	/// resolve one in-flight HTLC: claim (off-chain fulfil + finalize) or fail
+	fn resolve_op(&mut self, id: u64, part: u64, claim: bool) {
+		let sp = self.parts[&part].sp;
+		let gen = self.meta.get(&id).map(|m| m.gen).unwrap_or(0);
+		let (_, st) = self.list_line();
+		let before = st.get(&id).map(|x| x.0.clone()).unwrap_or("Absent".into());
+		if claim {
+			self.tally.entry(id).or_default().claim_hit = before != "Absent";
+			let f = &self.f;
+			match guarded(AssertUnwindSafe(|| f.claim(pid(id), preimage_of(id, gen), sp, part, false))) {
+				Ok(evs) => {
+					if before != "Fulfilled" && !evs.iter().any(|e| e.starts_with("PaymentSent")) { let tr = self.trace.join(" | "); self.rec.oracle_fail(format!("in-flight HTLC (part {}) of payment {} fulfilled at the sender, payment state {}: no PaymentSent produced: {} | claim {} {} 0", part, id, before, tr, id, part)); }
+					self.emit(format!("claim {} {} 0", id, part), "ok", &evs, "resolve:claim");
+				},
+				Err(_) => { self.emit(format!("claim {} {} 0", id, part), "panic", &[], "resolve:panic"); self.dead = true; return; },
+			}
+			let (_, st1) = self.list_line();
+			if st1.get(&id).map(|x| x.0 == "Fulfilled").unwrap_or(false) {
+				let f = &self.f;
+				let r = guarded(AssertUnwindSafe(|| f.finalize(pid(id), sp, part)));
+				self.inflight.remove(&(id, part));
+				match r { Ok(evs) => self.emit(format!("finalize {} {}", id, part), "ok", &evs, "resolve:finalize"), Err(_) => { self.emit(format!("finalize {} {}", id, part), "panic", &[], "resolve:panic"); self.dead = true; } }
+			} else { self.inflight.remove(&(id, part)); }
+		} else {
+			let auto = self.auto(id, &st);
+			let hash = hash_of(&preimage_of(id, gen));
+			let f = &self.f;
+			let r = guarded(AssertUnwindSafe(|| f.fail(pid(id), hash, sp, part, false)));
+			self.inflight.remove(&(id, part));
+			match r {
+				Ok(evs) => {
+					if before != "Fulfilled" && evs.is_empty() { let tr = self.trace.join(" | "); self.rec.oracle_fail(format!("in-flight HTLC (part {}) of payment {} failed at the sender, payment state {}: no event produced (payment unknown or part not tracked): {} | fail {} {}", part, id, before, tr, id, part)); }
+					self.emit(format!("fail {} {} {} 0", id, part, auto as u8), "ok", &evs, "resolve:fail");
+				},
+				Err(_) => { self.emit(format!("fail {} {} {} 0", id, part, auto as u8), "panic", &[], "resolve:panic"); self.dead = true; },
+			}
+		}
+	}
+
+	fn random_answers(&mut self, n: usize) -> Vec<PathAnswer> {
+		(0..n).map(|_| match self.rng.below(4) { 0 | 1 => PathAnswer::Ok, 2 => PathAnswer::MonitorUpdateInProgress, _ => PathAnswer::ChannelUnavailable }).collect()
+	}
+	fn random_send_with(&mut self) {
+		let id = self.rng.range(1, 4);
+		let n = self.rng.range(1, 4);
+		let retries = self.rng.below(3) as u32;
+		let with_secret = !self.rng.chance(1, 10);
+		let first = if self.rng.chance(1, 14) { None } else { Some((0..n).map(|_| self.rng.chance(1, 14)).collect::<Vec<bool>>()) };
+		let mut rp = vec![];
+		for _ in 0..3 { rp.push(if self.rng.chance(1, 3) { None } else { Some(if self.rng.chance(1, 12) { 1 } else { 0 }) }); }
+		let k = self.rng.below(9) as usize;
+		let answers = self.random_answers(k);
+		self.send_with_op(id, n, retries, with_secret, first, rp, answers);
+	}
+	fn random_check_with(&mut self) {
+		let mut rp = vec![];
+		for _ in 0..4 { rp.push(if self.rng.chance(1, 3) { None } else { Some(if self.rng.chance(1, 12) { 1 } else { 0 }) }); }
+		let k = self.rng.below(9) as usize;
+		let answers = self.random_answers(k);
+		self.check_with_op(rp, answers);
+	}
+	/// a PaymentPathFailed must not name a part whose HTLC is in flight (e.g. paused behind a monitor update)
+	fn path_failed_oracle(&mut self, evs: &[String]) {
+		for e in evs {
+			let w: Vec<&str> = e.split(' ').collect();
+			if w[0] != "PaymentPathFailed" { continue; }
+			let i = pid_num(w[1]);
+			let part: u64 = w[2].parse().unwrap_or(u64::MAX);
+			if self.tally.get(&i).map(|t| t.restarted).unwrap_or(true) { continue; }
+			if self.inflight.contains(&(i, part)) { let tr = self.trace.join(" | "); self.rec.oracle_fail(format!("PaymentPathFailed for part {} of payment {} although its HTLC is in flight: {}", part, i, tr)); }
+		}
+	}
+	/// like `emit`, with a ready-made answer line
+	fn emit_raw(&mut self, op: String, ans: String, evs: &[String], class: &str) {
+		self.trace.push(format!("{} => {}", op, ans));
+		self.path_failed_oracle(evs);
+		for e in evs {
+			let w: Vec<&str> = e.split(' ').collect();
+			if w[0] == "PaymentSent" { let i = pid_num(w[1]); self.tally.entry(i).or_default().sent += 1; }
+			else if w[0] == "PaymentFailed" {
+				let i = pid_num(w[1]);
+				let t = self.tally.entry(i).or_default();
+				t.failed += 1;
+				let restarted = t.restarted;
+				let live: Vec<u64> = self.inflight.iter().filter(|k| k.0 == i).map(|k| k.1).collect();
+				if !restarted && !live.is_empty() { let tr = self.trace.join(" | "); self.rec.oracle_fail(format!("PaymentFailed for payment {} while {} of its HTLCs are still in flight (parts {:?}; accepted by send_payment_along_path with Ok / MonitorUpdateInProgress, not yet resolved): {}", i, live.len(), live, tr)); }
+			}
+		}
+		self.rec.case(&op, &ans, class, true);
+		self.after();
 	}
 }
 
 fn run_pay(args: &Args) {
 	let mut rec = Rec::new(&args.out, "c03pay");
 	let mut rng = Rng::new(args.seed);
-	let n_seq = if args.thorough { 60_000 } else { 2_500 } * args.scale;
+	let n_seq = if args.thorough { 60_000 } else { 5_000 } * args.scale;
+	// (a) every per-path result vector of a 1-, 2- and 3-path send x retry budget x what the chained retry meets,
+	//     then every in-flight HTLC is resolved (failed, or the first one claimed) and the map swept
+	let answers3 = [PathAnswer::Ok, PathAnswer::MonitorUpdateInProgress, PathAnswer::ChannelUnavailable];
+	let mut combos: Vec<(u64, Vec<PathAnswer>, u32, u8, bool)> = vec![];
+	for n in 1..=3u64 {
+		for code in 0..3u64.pow(n as u32) {
+			let v: Vec<PathAnswer> = (0..n).map(|k| answers3[((code / 3u64.pow(k as u32)) % 3) as usize]).collect();
+			for retries in 0..2u32 { for follow in 0..5u8 { for claim in [false, true] { combos.push((n, v.clone(), retries, follow, claim)); } } }
+		}
+	}
+	for (ci, (n, v, retries, follow, claim)) in combos.into_iter().enumerate() {
+		rec.directive("reset");
+		let amt = [10_000u64, 7, 123_456][ci % 3];
+		rec.directive(&format!("amtall {}", amt));
+		let mut seq = Seq { f: Facade::new(rng.bytes32(), amt), rec: &mut rec, rng: &mut rng, meta: BTreeMap::new(), snap_meta: BTreeMap::new(), parts: BTreeMap::new(),
+			next_part: 1 + 50 * (ci as u64 % 500), gens: 5_000_000 + ci as u64 * 10, tally: BTreeMap::new(), present: BTreeSet::new(), trace: vec![], dead: false, inflight: BTreeSet::new(), amt };
+		// follow: 0 no route on the chained retry; 1 route, all Ok; 2 route, first path MonitorUpdateInProgress; 3 route, first path
+		// refused; 4 route with a path that fails the parameter check
+		let mut answers = v.clone();
+		let rp = match follow { 0 => vec![None], 4 => vec![Some(1), None], _ => vec![Some(0), None] };
+		match follow { 2 => answers.push(PathAnswer::MonitorUpdateInProgress), 3 => answers.push(PathAnswer::ChannelUnavailable), _ => {} }
+		seq.send_with_op(1, n, retries, true, Some(vec![false; n as usize]), rp, answers);
+		if !seq.dead { seq.dump(); }
+		let mut first = true;
+		loop {
+			if seq.dead { break; }
+			let next = seq.inflight.iter().next().cloned();
+			let (id, part) = match next { Some(x) => x, None => break };
+			seq.resolve_op(id, part, claim && first);
+			first = false;
+		}
+		if !seq.dead { seq.check_with_op(vec![None], vec![]); }
+		if !seq.dead {
+			seq.dump();
+			// every HTLC resolved and the retry budget swept: the payment must have ended with exactly one terminal event
+			let (_, st) = seq.list_line();
+			if let Some((name, np)) = st.get(&1) { if name != "Fulfilled" { let t = seq.trace.join(" | "); seq.rec.oracle_fail(format!("payment 1 still listed as {} with {} parts although every HTLC was resolved and check_retry_payments ran: {}", name, np, t)); } }
+		}
+		std::mem::forget(seq.f);
+	}
 	for s in 0..n_seq {
 		rec.directive("reset");
+		let amt = [10_000u64, 7, 123_456][(s % 3) as usize];
+		rec.directive(&format!("amtall {}", amt));
 		let len = if rng.chance(1, 10) { rng.range(40, 120) } else { rng.range(5, 40) };
-		let mut seq = Seq { f: Facade::new(rng.bytes32(), 10_000), rec: &mut rec, rng: &mut rng, meta: BTreeMap::new(), snap_meta: BTreeMap::new(), parts: BTreeMap::new(),
-			next_part: 1 + 100 * (s % 400), gens: s * 1000, tally: BTreeMap::new(), present: BTreeSet::new(), trace: vec![], dead: false };
+		let mut seq = Seq { f: Facade::new(rng.bytes32(), amt),
+ rec: &mut rec, rng: &mut rng, meta: BTreeMap::new(), snap_meta: BTreeMap::new(), parts: BTreeMap::new(),
+			next_part: 1 + 100 * (s % 400), gens: s * 1000, tally: BTreeMap::new(), present: BTreeSet::new(), trace: vec![], dead: false, inflight: BTreeSet::new(), amt };
 		for _ in 0..len { if seq.dead { break; } seq.step(); }
 		if !seq.dead {
 			let (l, _) = seq.list_line();
